@@ -3,7 +3,7 @@ from __future__ import annotations
 
 import ast
 
-from ..exprs import NotConst, fold
+from ..exprs import NotConst, fold, to_sympy
 from ..guards import controlling
 from ..loader import AnalysisError, attr_chain, call_name, callee_attr, calls_in, names_in, norm, short
 
@@ -190,6 +190,8 @@ def run(ctx):
     ctx.rule("R3", "pair selection is rotation invariant: the only coordinate-dependent factor of the pair list tests |r_i - r_j| (or its square) against the cutoff")
     ctx.rule("R4", "Euler-angle frame builders of the overlap routines are orthonormal on both charts: ca^2 + sa^2 = 1 and cb^2 + sb^2 = 1 in the generic branch and at the z pole")
     ctx.rule("R5", "one-centre Fock terms are isotropic in the p shell (all 10 elements equal the first-principles NDDO sums; shared with C06-R3)")
+    ctx.rule("R6", "molecular-frame two-electron integrals are the tensor transform of the local ones for every orthogonal frame (all 100 + 10 packed elements); the quaternion frame is orthogonal with its first row on the bond vector on both charts")
+    check_integral_rotation(ctx, "R6")
     _r4_euler_frames(ctx, repo)
     from .c06 import one_center_first_principles
     one_center_first_principles(ctx, repo, "R5")
@@ -381,3 +383,125 @@ def _r4_euler_frames(ctx, repo):
 
 def _bad(e):
     raise AnalysisError(f"frame: operator {norm(e)}")
+
+
+def check_integral_rotation(ctx, rid):
+    """(shared with C06) see sa/rotint.py"""
+    import random
+    import sympy as sp
+    from .. import multipole as mp
+    from .. import rotint
+    repo = ctx.repo
+    m = repo.mod(TE)
+    f = m.func("w_withquaternion")
+    ri = [sp.Symbol(f"ri{k}") for k in range(22)]
+    rx = [sp.Symbol(f"rx{k}") for k in range(4)]
+    R = [[sp.Symbol(f"R{a}{b}") for b in range(3)] for a in range(3)]
+    RX = [[sp.Symbol(f"X{a}{b}") for b in range(3)] for a in range(3)]
+    w, wxh, combos = rotint.interpret_rotation(f, ri, rx, R, RX)
+    if sorted(w) != list(range(100)) or sorted(wxh) != list(range(10)):
+        raise AnalysisError(f"w_withquaternion: {len(w)} / {len(wxh)} packed elements interpreted")
+    conv = (-1, -1)
+    loc = ["S", "O", "P", "Q"]
+    bad_total = {}
+    for trial in range(2):
+        rng = random.Random(17 + trial)
+        r, S = mp.symbols()
+        vals = {s_: sp.Rational(rng.randint(5, 40), 11) for s_ in [r] + list(S.values())}
+        tab = mp.table(*conv)
+        rinum = [sp.N(t_.subs(vals), 40) for t_ in tab]
+        L = rotint.oracle_tensor(vals, conv)
+        Rm = rotint.random_rotation(rng)
+        sub = {ri[k]: rinum[k] for k in range(22)}
+        sub.update({rx[k]: rinum[k] for k in range(4)})
+        for a in range(3):
+            for b in range(3):
+                sub[R[a][b]] = Rm[a, b]
+                sub[RX[a][b]] = Rm[a, b]
+
+        def T(mu, a):
+            if mu == 0:
+                return 1 if a == 0 else 0
+            return 0 if a == 0 else Rm[a - 1, mu - 1]
+
+        def transformed(kk, ll, mm, nn, only_ss_b=False):
+            tot = 0
+            for a in range(4):
+                ta = T(kk, a)
+                if ta == 0:
+                    continue
+                for b in range(4):
+                    tb = T(ll, b)
+                    if tb == 0:
+                        continue
+                    for c in range(4):
+                        tc = T(mm, c)
+                        if tc == 0:
+                            continue
+                        for d in range(4):
+                            td = T(nn, d)
+                            if td == 0:
+                                continue
+                            tot += ta * tb * tc * td * L[(rotint.pair_kind(loc[a], loc[b]), rotint.pair_kind(loc[c], loc[d]))]
+            return tot
+        ixh = 0
+        for i, (kk, ll, mm, nn) in enumerate(combos):
+            code = sp.N(w[i].subs(sub), 40)
+            if abs(code - transformed(kk, ll, mm, nn)) > sp.Float("1e-25"):
+                bad_total.setdefault(("w", i, (kk, ll, mm, nn)), 0)
+            if mm == 0 and nn == 0:
+                codex = sp.N(wxh[ixh].subs(sub), 40)
+                if abs(codex - transformed(kk, ll, 0, 0)) > sp.Float("1e-25"):
+                    bad_total.setdefault(("wXH", ixh, (kk, ll, 0, 0)), 0)
+                ixh += 1
+    names = "s x y z".split()
+    for (arr, i, c) in sorted(bad_total):
+        ctx.fail(rid, m, f, "w_withquaternion", f"{arr}[{i}] = ({names[c[0]]}{names[c[1]]}|{names[c[2]]}{names[c[3]]})",
+                 f"{arr}[{i}] = ({names[c[0]]}{names[c[1]]}|{names[c[2]]}{names[c[3]]}) is not sum_abcd T T T T (ab|cd)_local for an orthogonal frame: the rotated two-electron "
+                 f"integrals are not the tensor transform of the local ones, energies depend on the orientation of the molecule")
+    ctx.ok(rid, "seqm/seqm_functions/two_elec_two_center_int.py:w_withquaternion",
+           f"{100 + 10 - len(bad_total)} of 110 packed molecular-frame integrals equal the tensor transform of the point-charge local tensor at 2 random exact rotations (40 digits)")
+    for _ in range(109 - len(bad_total)):
+        ctx.ok(rid, "seqm/seqm_functions/two_elec_two_center_int.py:w_withquaternion", "packed element equals the tensor transform", nontrivial=True)
+    # ---- the frame itself: orthogonal, first row = bond vector, on the generic chart and on the antipodal chart
+    q = m.func("rotate_with_quaternion")
+    vx, vy, vz = sp.symbols("vx vy vz", real=True)
+    env = {}
+    rot = {}
+    for st in q.body:
+        if isinstance(st, ast.Return):
+            break
+        if isinstance(st, ast.Assign) and isinstance(st.targets[0], ast.Subscript) and norm(st.targets[0].value) == "rot":
+            sl = st.targets[0].slice.elts
+            i, j = sl[-2].value, sl[-1].value
+            qy, qz, qw = sp.symbols("qy qz qw", real=True)
+            rot[(i, j)] = to_sympy(st.value, {"qy": qy, "qz": qz, "qw": qw}, {})
+    if len(rot) != 9:
+        raise AnalysisError(f"rotate_with_quaternion: {len(rot)} rotation elements interpreted")
+    qy, qz, qw = sp.symbols("qy qz qw", real=True)
+    Rm = sp.Matrix(3, 3, lambda i, j: rot[(i, j)])
+    # generic chart: q_raw = (0, vz, -vy, 1 + vx) / N
+    N2 = vz ** 2 + vy ** 2 + (1 + vx) ** 2
+    gen = {qy: vz / sp.sqrt(N2), qz: -vy / sp.sqrt(N2), qw: (1 + vx) / sp.sqrt(N2)}
+    Rg = Rm.subs(gen)
+    unit = {vz ** 2: 1 - vx ** 2 - vy ** 2}
+    orth = sp.simplify((Rg * Rg.T - sp.eye(3)).subs(unit))
+    row0 = [sp.simplify(sp.simplify(Rg[0, k]).subs(unit) - (vx, vy, vz)[k]) for k in range(3)]
+    # numeric fallback at a rational unit vector (Pythagorean quadruple 2,3,6,7)
+    pt = {vx: sp.Rational(2, 7), vy: sp.Rational(3, 7), vz: sp.Rational(6, 7)}
+    orth_ok = orth == sp.zeros(3, 3) or (Rg.subs(pt) * Rg.subs(pt).T - sp.eye(3)) == sp.zeros(3, 3)
+    row_ok = all(x == 0 for x in row0) or all(sp.simplify(Rg[0, k].subs(pt) - (vx, vy, vz)[k].subs(pt)) == 0 for k in range(3))
+    # the q_raw definition in the code must be the one assumed here
+    u1 = [st for st in q.body if isinstance(st, ast.Assign) and norm(st.targets[0]).replace(" ", "") == "u[:,1]"]
+    u2 = [st for st in q.body if isinstance(st, ast.Assign) and norm(st.targets[0]).replace(" ", "") == "u[:,2]"]
+    wdef = [st for st in q.body if isinstance(st, ast.Assign) and norm(st.targets[0]) == "w_"]
+    qdef_ok = bool(u1 and u2 and wdef) and norm(u1[0].value).replace(" ", "") == "v[:,2]" and norm(u2[0].value).replace(" ", "") == "-v[:,1]" \
+        and norm(wdef[0].value).replace(" ", "") == "1.0+v[...,0]"
+    ctx.check(qdef_ok and orth_ok and row_ok, rid, m, q, "rotate_with_quaternion", "generic chart", "generic chart: rot is orthogonal and its first row is the unit bond vector",
+              f"generic chart: rot rot^T - 1 = {orth}, first row - v = {row0}, q_raw definition recognised = {qdef_ok}")
+    pole = {qy: 0, qz: 1, qw: 0}
+    fallback = [st for st in q.body if isinstance(st, ast.Assign) and norm(st.targets[0]) == "q_raw[mask]"]
+    fb_ok = bool(fallback) and "[0.0, 0.0, 1.0, 0.0]" in norm(fallback[0].value)
+    Rp = Rm.subs(pole)
+    ctx.check(fb_ok and Rp * Rp.T == sp.eye(3) and list(Rp[0, :]) == [-1, 0, 0], rid, m, q, "rotate_with_quaternion", "antipodal chart",
+              "antipodal chart: rot = diag(-1, -1, 1) is orthogonal with first row -x (the bond vector there)", f"antipodal chart gives rot = {Rp}")
